@@ -86,6 +86,10 @@ pub struct RlCase {
     /// threads (see crate::stress)
     #[serde(default)]
     pub stress: Option<RlStress>,
+    /// the layer and every service handle are dropped right after the last call was made (only
+    /// the response futures are left, some of them still waiting for a permit)
+    #[serde(default)]
+    pub drop_services: bool,
 }
 
 #[derive(Clone, Debug, Serialize, Deserialize)]
@@ -120,6 +124,7 @@ fn stress_strategy(tier: Tier) -> BoxedStrategy<RlCase> {
             stall: None,
             busy: None,
             listeners: false,
+            drop_services: false,
             stress: Some(RlStress {
                 window,
                 threads,
@@ -280,10 +285,11 @@ fn case_strategy(tier: Tier) -> BoxedStrategy<RlCase> {
             prop_oneof![4 => Just(0u32), 1 => prop_oneof![Just(1u32), Just(300u32), Just(999u32), 1u32..=999]],
             prop_oneof![4 => Just(None), 1 => (rel(8), rel(3)).prop_map(Some)],
             prop::bool::weighted(0.3),
+            prop::bool::weighted(0.25),
         ),
     )
         .prop_map(
-            |(window, limit, period, timeout, clones, callers, order, stall, (timeout_forever, setter_order, build_offset_us, busy, listeners))| RlCase {
+            |(window, limit, period, timeout, clones, callers, order, stall, (timeout_forever, setter_order, build_offset_us, busy, listeners, drop_services))| RlCase {
                 window,
                 limit,
                 period,
@@ -297,6 +303,7 @@ fn case_strategy(tier: Tier) -> BoxedStrategy<RlCase> {
                 busy: if stall.is_some() { None } else { busy },
                 listeners,
                 stress: None,
+                drop_services,
                 stall,
             },
         )
@@ -442,6 +449,7 @@ async fn interp(case: &RlCase) -> Verdict {
     .build();
     let base = layer.layer(inner.clone());
     let mut clones: Vec<_> = (0..case.clones).map(|_| base.clone()).collect();
+    let mut keep_alive = Some((layer, base));
 
     let n = case.callers.len();
     let mut at = vec![0u64; n];
@@ -492,6 +500,7 @@ async fn interp(case: &RlCase) -> Verdict {
             timeout + 3 * p
         }
         + 25;
+    let last_created = created.iter().copied().max().unwrap_or(0);
     let mut task: Vec<Option<usize>> = vec![None; n];
     let mut cancelled_waiting = vec![false; n];
     let mut cancelled = vec![false; n];
@@ -533,6 +542,10 @@ async fn interp(case: &RlCase) -> Verdict {
                     task[i] = Some(sim.spawn_call(fut, map_outcome));
                 }
             }
+        }
+        if case.drop_services && t == last_created {
+            clones.clear();
+            keep_alive = None;
         }
         for i in 0..n {
             if let (Some(d), Some(tk)) = (case.callers[i].cancel_after, task[i]) {
@@ -817,6 +830,10 @@ async fn interp(case: &RlCase) -> Verdict {
     if case.listeners {
         v.classes.push("event_listeners_registered");
     }
+    if case.drop_services {
+        v.classes.push("service_handles_dropped_after_the_last_call");
+    }
+    let _ = &keep_alive;
     if busy.is_some() {
         v.classes.push("inner_service_busy_for_a_while");
     }
